@@ -729,3 +729,48 @@ func zzH_C10_batch_repeated_key(t *zzT) {
 	t.Assert(err != nil || bytes.Equal(root, s.refRoot()), "a batch with a repeated key commits the first value of every key (root = reference root of that map)")
 	t.Reach("end")
 }
+
+// C10 "a proof generated for ANY set of query keys verifies …, showing the stored value for present keys and
+// absence for missing ones": multi-key proofs that MIX present and absent keys on a fixed map. Keys 0000, 0001
+// and 8000 are stored (symbolic values); two or three query keys are chosen from {0000, 0001, 8000, 0080, 0100,
+// ffff} — absent keys resolving to an empty slot below the node where the paths join (0080, 0100), to the root's
+// empty side, or to a foreign leaf. Prove + Verify must succeed for every choice.
+// (seed C10-10 stopped eliding the ancestors of queries that end in an empty slot.)
+//
+//zz:opt loop=300 require=end,mixed sched=0 gor=3000 hashdepth=64 budget=240s
+//zz:quick P=6 Q=2 TAG=1
+//zz:thorough P=6 Q=3 TAG=1 budget=1800s
+func zzH_C10_prove_mixed_present_absent(t *zzT) {
+	vals := &zzValues{t: t}
+	s := zzNewBuild(t, vals)
+	var ks, vs [][]byte
+	for _, i := range []int{0, 1, 2} { // 0000, 0001, 8000
+		v := vals.fresh()
+		ks, vs = append(ks, s.pool[i]), append(vs, v)
+		s.cur[i] = v
+	}
+	root, err := s.tr.Update(s.db, ks, vs)
+	t.Assert(err == nil && bytes.Equal(root, s.refRoot()), "the map is built (root = reference root)")
+	if err != nil {
+		return
+	}
+	nq := t.Param("Q", 2)
+	q := make([]int, 0, nq)
+	last := -1
+	present, absent := false, false
+	for j := 0; j < nq; j++ {
+		i := t.Range(t.Name("query", j), last+1, len(s.pool)-(nq-j))
+		q = append(q, i)
+		last = i
+		if s.cur[i] != nil {
+			present = true
+		} else {
+			absent = true
+		}
+	}
+	zzProveVerify(t, s.tr, s.db, s.pool, s.cur, q, root)
+	if present && absent {
+		t.Reach("mixed")
+	}
+	t.Reach("end")
+}
